@@ -142,6 +142,33 @@ Definition furl_eqb (a b : furl) : bool :=
   String.eqb (fu_prefix a) (fu_prefix b) && String.eqb (fu_regex a) (fu_regex b) &&
   String.eqb (fu_ref a) (fu_ref b).
 
+(** [urlrule.URLRule.Match]: the method list (empty = any method) must contain the
+    request method, and the path must equal [exact], or start with [prefix], or
+    match [regex] - each alternative only when configured (non-empty), all
+    alternatives tried.  Only the verdict of Go's [regexp] on the rule's own
+    pattern is an oracle bit ([rx]). *)
+Definition str_nonempty (s : string) : bool := negb (String.eqb s "").
+
+Definition sm_match (u : furl) (v : string) (rx : bool) : bool :=
+  (str_nonempty (fu_exact u) && String.eqb v (fu_exact u)) ||
+  (str_nonempty (fu_prefix u) && String.prefix (fu_prefix u) v) ||
+  (str_nonempty (fu_regex u) && rx).
+
+Definition method_ok (u : furl) (method : string) : bool :=
+  match fu_methods u with
+  | [] => true
+  | ms => existsb (String.eqb method) ms
+  end.
+
+Definition url_match (u : furl) (method path : string) (rx : bool) : bool :=
+  method_ok u method && sm_match u path rx.
+
+Fixpoint match_row (us : list furl) (method path : string) (rxs : list bool) : list bool :=
+  match us, rxs with
+  | u :: ut, rx :: rt => url_match u method path rx :: match_row ut method path rt
+  | _, _ => []
+  end.
+
 Definition find_policy (s : fspec) (name : string) : option fpolicy :=
   find (fun p => String.eqb (fp_name p) name) (fs_policies s).
 
